@@ -190,6 +190,7 @@ func genDetScenario(r *verifsim.Run, focus string) *aScenario {
 		WarmerOnly:      r.Chance(1, 2),
 		EdgePixels:      c.Edge,
 	}
+	c.Motion.Verbose = r.Chance(1, 6) // the debug tracker must never change what is detected
 	c.Preview = r.Draw(3)
 	c.Trig = r.Draw(4)
 	if c.Preview*c.Fps+c.Trig == 0 {
